@@ -218,7 +218,7 @@ func vHeapOK(q *queue[int, *vItem]) bool {
 // absent key), Update or Pop the invariant holds again, the size is right, Pop returned an item not later than any
 // other, and Peek shows an item not later than any other - which is what makes callbacks come in scheduled-time order.
 //
-//verif:harness prop=C06 name=queue_heap_step unwind=24
+//verif:harness prop=C06 name=queue_heap_step unwind=24 qtimeout=60
 func VerifQueueHeapStep() {
 	n := zzverif.Choose("size", 8)
 	q := newQueue[int, *vItem]()
@@ -284,7 +284,14 @@ func VerifQueueHeapStep() {
 			}
 		}
 	}
-	zzverif.Assert(vHeapOK(&q), "queue_invariant_preserved")
+	// the invariant again, one obligation per item (smaller queries than one conjunction)
+	zzverif.Assert(len(q.items) == len(*q.heap), "queue_invariant_preserved")
+	for i, it := range *q.heap {
+		zzverif.Assert(it != nil && it.index == i && q.items[it.value.key] == it, "queue_invariant_preserved")
+		if i > 0 {
+			zzverif.Assert(!it.value.due.Before((*q.heap)[(i-1)/2].value.due), "queue_invariant_preserved")
+		}
+	}
 	minOK()
 	zzverif.Cover("queue_heap_step_done")
 }
